@@ -25,6 +25,12 @@
 //!    rejected;
 //!  * rejection of a mismatched query holds up to coincidences of probability
 //!    about 2^-250 (distinct random keys), which is accepted.
+//!  * curve25519 decoders: only `ecvrf::PublicKey` documents the exclusion of
+//!    small-order points, so only it is judged (reject iff not a point or small
+//!    order, accept canonical large-order points); non-canonical encodings
+//!    (y >= p) of large-order points and mixed-order points are counted;
+//!    ed25519 verifying keys of the dlog proof and the gamma point of a VRF
+//!    proof have no documented small-order check: counted only.
 //!  * panics are reported as inconclusive.
 #![allow(deprecated)]
 use crate::common::*;
@@ -418,11 +424,17 @@ fn case_agg_same_msg(j: &mut J, r: &mut Rng, cr: &mut CR, sizes: &[usize]) -> u6
             let pks: Vec<agg::PublicKey<P>> = q.iter().map(|(k, _)| keys.pks[*k]).collect();
             let got = vmon_core::catch(|| agg::verify_aggregate_sig_trusted_keys::<P>(&msgs[0], &pks, sig));
             j.expect(&format!("agg.trusted_keys.{}", tag), same, got, || pairs_json(&keys, &msgs, built, q, &sig));
+            if [150, 151, 200, 301].contains(&pks.len()) {
+                j.sh.hit(&format!("agg.trusted_keys.keys_per_message.{}.{}", pks.len(), if same { "accept" } else { "reject" }));
+            }
             let mut s = std::collections::BTreeSet::new();
             if q.iter().all(|(k, _)| s.insert(*k)) {
                 let qq: Vec<(&[u8], &[agg::PublicKey<P>])> = vec![(&msgs[0][..], &pks[..])];
                 let got = vmon_core::catch(|| agg::verify_aggregate_sig_hybrid::<P>(&qq, sig));
                 j.expect(&format!("agg.hybrid.{}", tag), same, got, || pairs_json(&keys, &msgs, built, q, &sig));
+                if [150, 151, 200, 301].contains(&pks.len()) {
+                    j.sh.hit(&format!("agg.hybrid.keys_per_message.{}.{}", pks.len(), if same { "accept" } else { "reject" }));
+                }
                 j.sh.max("max.hybrid_group", pks.len() as u64);
             }
         }
@@ -539,6 +551,223 @@ fn case_vrf(j: &mut J, r: &mut Rng, cr: &mut CR) -> u64 {
         j.expect("vrf.flip.message", false, got, || json!({"key": hex(&kb), "flipped_message": hex(&m), "proof": hex(&pb)}));
     }
     vmon_core::fnv(&pb)
+}
+
+// ---------------------------------------------------------------- curve25519 point encodings
+//
+// Independent classification of a 32-byte string as an Edwards25519 point
+// (RFC 8032 section 5.1.3) over num-bigint: on-curve test by the curve equation,
+// small order by three affine doublings. Nothing of curve25519-dalek's
+// `decompress` / `is_small_order` is used by the oracle.
+use crate::c20::{fneg, p25519, sqrt_ratio_m1};
+use num_bigint::BigUint;
+use num_traits::{One, Zero};
+
+struct EdClass {
+    on_curve:    bool,
+    small_order: bool,
+    /// y < p and no sign bit on x = 0
+    canonical:   bool,
+}
+
+fn ed_d(p: &BigUint) -> BigUint { fneg(&(BigUint::from(121665u32) * BigUint::from(121666u32).modpow(&(p - BigUint::from(2u32)), p) % p), p) }
+
+fn ed_add(x1: &BigUint, y1: &BigUint, x2: &BigUint, y2: &BigUint, p: &BigUint, d: &BigUint) -> (BigUint, BigUint) {
+    let inv = |a: &BigUint| a.modpow(&(p - BigUint::from(2u32)), p);
+    let t = d * x1 % p * x2 % p * y1 % p * y2 % p;
+    let x3 = (x1 * y2 + y1 * x2) % p * inv(&((BigUint::one() + &t) % p)) % p;
+    let y3 = (y1 * y2 + x1 * x2) % p * inv(&((BigUint::one() + p - &t) % p)) % p;
+    (x3, y3)
+}
+
+fn classify_ed(b: &[u8]) -> EdClass {
+    let p = p25519();
+    let d = ed_d(&p);
+    let sign = b[31] >> 7 == 1;
+    let mut yb = b.to_vec();
+    yb[31] &= 0x7f;
+    let y_raw = BigUint::from_bytes_le(&yb);
+    let canonical_y = y_raw < p;
+    let y = &y_raw % &p;
+    let yy = &y * &y % &p;
+    let u = (&yy + &p - BigUint::one()) % &p;
+    let v = (&d * &yy + BigUint::one()) % &p;
+    let (is_square, mut x) = sqrt_ratio_m1(&u, &v, &p);
+    if !is_square {
+        return EdClass { on_curve: false, small_order: false, canonical: canonical_y };
+    }
+    let sign_on_zero = x.is_zero() && sign;
+    if sign && !x.is_zero() {
+        x = &p - &x; // sqrt_ratio_m1 returns the even root
+    }
+    let (mut px, mut py) = (x, y);
+    for _ in 0..3 {
+        let (a, b2) = ed_add(&px, &py, &px, &py, &p, &d);
+        px = a;
+        py = b2;
+    }
+    EdClass { on_curve: true, small_order: px.is_zero() && py.is_one(), canonical: canonical_y && !sign_on_zero }
+}
+
+/// Every encoding that curve25519 decoders may map to a point of small order:
+/// the 8 torsion points in canonical form, with the sign bit set when x = 0,
+/// and with y + p when that still fits in 255 bits (14 strings in total).
+fn small_order_encodings() -> Vec<(String, [u8; 32])> {
+    let p = p25519();
+    let mut out = vec![];
+    for (i, t) in curve25519_dalek::constants::EIGHT_TORSION.iter().enumerate() {
+        let enc = t.compress().to_bytes();
+        let sign = enc[31] >> 7;
+        let mut yb = enc;
+        yb[31] &= 0x7f;
+        let y = BigUint::from_bytes_le(&yb);
+        let x_is_zero = i % 4 == 0;
+        let mut ys = vec![(y.clone(), "")];
+        if (&y + &p).bits() <= 255 {
+            ys.push((&y + &p, ".y_plus_p"));
+        }
+        for (yv, yn) in ys {
+            let signs: Vec<u8> = if x_is_zero { vec![sign, 1 - sign] } else { vec![sign] };
+            for (k, sg) in signs.into_iter().enumerate() {
+                let mut e = yv.to_bytes_le();
+                e.resize(32, 0);
+                e[31] |= sg << 7;
+                out.push((format!("torsion{}{}{}", i, yn, if k == 1 { ".sign_flipped" } else { "" }), <[u8; 32]>::try_from(&e[..]).unwrap()));
+            }
+        }
+    }
+    out
+}
+
+/// What a decodable small-order VRF key means: a proof (identity, c, s) with
+/// c = 0 mod 8 verifies for any message. Only reached when the decoder
+/// accepted such a key; used to describe the consequence in the violation.
+fn forge_with_small_order_key(pk: &ecvrf::PublicKey, msg: &[u8]) -> Option<bool> {
+    use curve25519_dalek::{constants::ED25519_BASEPOINT_POINT, edwards::EdwardsPoint, scalar::Scalar, traits::Identity};
+    let h = pk.hash_to_curve(msg)?;
+    let gamma = EdwardsPoint::identity();
+    for k in 1u64..400 {
+        let s = Scalar::from(k);
+        let c = ecvrf::hash_points(&[h.compress(), gamma.compress(), (s * ED25519_BASEPOINT_POINT).compress(), (s * h).compress()]);
+        if c.as_bytes()[0] & 7 == 0 {
+            let proof = ecvrf::Proof(gamma, c, s);
+            return Some(pk.verify(&proof, msg));
+        }
+    }
+    None
+}
+
+fn case_curve25519_keys(j: &mut J, r: &mut Rng, cr: &mut CR) -> u64 {
+    use curve25519_dalek::edwards::CompressedEdwardsY;
+    let p = p25519();
+    let honest = ecvrf::Keypair::generate(cr);
+    let hb: [u8; 32] = *honest.public.as_bytes();
+    let mut cands: Vec<(String, [u8; 32], bool)> = vec![]; // (origin, bytes, judge acceptance)
+    for (name, e) in small_order_encodings() {
+        cands.push((format!("small-order.{}", name), e, true));
+    }
+    cands.push(("honest".into(), hb, true));
+    // honest point plus a torsion point: large order, not small order. Acceptance is
+    // library behaviour, not a documented promise: counted only.
+    if let Some(pt) = CompressedEdwardsY(hb).decompress() {
+        let t = curve25519_dalek::constants::EIGHT_TORSION[r.range(1, 7) as usize];
+        cands.push(("mixed-order".into(), (pt + t).compress().to_bytes(), false));
+    }
+    for _ in 0..6 {
+        let mut e = r.bytes(32);
+        if r.chance(1, 4) {
+            e[31] |= 0x7f; // large y
+        }
+        cands.push(("random-bytes".into(), <[u8; 32]>::try_from(&e[..]).unwrap(), true));
+    }
+    for _ in 0..4 {
+        let bit = r.below(256) as usize;
+        cands.push(("honest-one-bit-flipped".into(), <[u8; 32]>::try_from(&flipped(&hb, bit)[..]).unwrap(), true));
+    }
+    for _ in 0..4 {
+        // y in [p, 2^255): 19 values, both signs
+        let mut e = (&p + BigUint::from(r.below(19))).to_bytes_le();
+        e.resize(32, 0);
+        e[31] |= (r.below(2) as u8) << 7;
+        cands.push(("y-not-below-p".into(), <[u8; 32]>::try_from(&e[..]).unwrap(), true));
+    }
+    for _ in 0..3 {
+        let mut e = BigUint::from(r.below(64)).to_bytes_le();
+        e.resize(32, 0);
+        e[31] |= (r.below(2) as u8) << 7;
+        cands.push(("small-y".into(), <[u8; 32]>::try_from(&e[..]).unwrap(), true));
+    }
+    let mut h = 0u64;
+    for (origin, b, judge_accept) in cands {
+        h ^= vmon_core::fnv(&b);
+        let cl = classify_ed(&b);
+        let class = if !cl.on_curve {
+            "not-on-curve"
+        } else if cl.small_order && !broken() {
+            "small-order"
+        } else if !cl.canonical {
+            "noncanonical-large-order"
+        } else {
+            "valid"
+        };
+        // ---- VRF public key: documented to reject small order (and anything that is not a point)
+        let got = vmon_core::catch(|| from_bytes::<ecvrf::PublicKey, _>(&mut std::io::Cursor::new(&b[..])));
+        j.sh.hit(&format!("vrf.key.decode.class.{}", class));
+        j.sh.hit(&format!("vrf.key.decode.origin.{}", origin.split('.').next().unwrap_or("")));
+        match got {
+            Err(m) => {
+                if j.sh.inconclusive.len() < 5 {
+                    j.sh.inconclusive.push(format!("ecvrf::PublicKey decoder panicked on {}: {}", hex(&b), m));
+                }
+            }
+            Ok(res) => {
+                let expected: Option<bool> = match class {
+                    "not-on-curve" | "small-order" => Some(false),
+                    "valid" if judge_accept => Some(true),
+                    _ => None,
+                };
+                match expected {
+                    None => j.sh.hit(&format!("vrf.key.decode.not_judged.{}.{}", class, if res.is_ok() { "accepted" } else { "rejected" })),
+                    Some(exp) => {
+                        j.sh.evaluations += 1;
+                        j.sh.hit("vrf.key.decode");
+                        j.sh.hit(if exp { "accept.expected" } else { "reject.expected" });
+                        if j.replaying {
+                            println!("  vrf.key.decode {} class={} expected={} got={}", origin, class, exp, res.is_ok());
+                        }
+                        if res.is_ok() != exp {
+                            let mut detail = format!("ecvrf::PublicKey decoder {} {} (independent classification: {}, candidate {})", if res.is_ok() { "ACCEPTED" } else { "REJECTED" }, hex(&b), class, origin);
+                            if let (Ok(k), "small-order") = (&res, class) {
+                                let msg = b"any message";
+                                detail.push_str(&format!("; verify_key() = {}; a proof (identity, c = 0 mod 8, s) forged without any secret for message {:?} verifies: {:?}", k.verify_key(), String::from_utf8_lossy(msg), vmon_core::catch(|| forge_with_small_order_key(k, msg)).ok().flatten()));
+                            }
+                            j.sh.violate(j.idx, if exp { "false-reject" } else { "false-accept" }, format!("c19:vrf.key.decode:{}:{}", class, hex(&b)), detail, json!({"type": "ecvrf::PublicKey", "bytes": hex(&b), "classification": class, "candidate_kind": origin, "library_accepts": res.is_ok()}));
+                        }
+                    }
+                }
+                if let Ok(k) = &res {
+                    if class == "valid" {
+                        let ok = to_bytes(k) == b && k.verify_key();
+                        j.sh.evaluations += 1;
+                        j.sh.hit("vrf.key.roundtrip");
+                        if !ok {
+                            j.fail("vrf.key.roundtrip", "an accepted canonical key does not re-encode to itself or fails verify_key()".into(), json!({"bytes": hex(&b), "reencoded": hex(&to_bytes(k)), "verify_key": k.verify_key()}));
+                        }
+                    }
+                }
+            }
+        }
+        // ---- other curve25519 decoders in the C19 anchors: no small-order check is
+        // documented for them (ed25519 verifying keys used by the dlog proof, the gamma
+        // point of a VRF proof). Counted, not judged.
+        if class == "small-order" {
+            j.sh.hit(if ed25519_dalek::VerifyingKey::from_bytes(&b).is_ok() { "dlog.key.small_order.decodes_not_judged" } else { "dlog.key.small_order.rejected_not_judged" });
+            let mut pb = b.to_vec();
+            pb.extend_from_slice(&[0u8; 48]);
+            j.sh.hit(if from_bytes::<ecvrf::Proof, _>(&mut std::io::Cursor::new(&pb)).is_ok() { "vrf.proof.small_order_gamma.decodes_not_judged" } else { "vrf.proof.small_order_gamma.rejected_not_judged" });
+        }
+    }
+    h
 }
 
 fn ps_scalar(r: &mut Rng, cr: &mut CR) -> Fr {
@@ -732,7 +961,7 @@ pub fn run(ctx: &ChildCtx, sh: &mut Shard) {
     }
     let thorough = ctx.tier == vmon_core::Tier::Thorough;
     let multi_sizes: &[usize] = if thorough { &[1, 2, 3, 3, 17, 17, 150, 151] } else { &[1, 2, 3, 3, 5, 17] };
-    let same_sizes: &[usize] = if thorough { &[1, 2, 3, 17, 149, 150, 151, 300] } else { &[1, 2, 3, 17, 150, 151] };
+    let same_sizes: &[usize] = if thorough { &[1, 2, 3, 17, 149, 150, 151, 200, 300, 301] } else { &[1, 2, 3, 17, 150, 151, 200, 301] };
     for idx in ctx.indices() {
         ctx.begin_case(idx);
         let mut r = ctx.case_rng(idx);
@@ -745,7 +974,11 @@ pub fn run(ctx: &ChildCtx, sh: &mut Shard) {
             4 => ("pop", case_pop(&mut j, &mut r, &mut cr)),
             5 | 6 => ("vrf", case_vrf(&mut j, &mut r, &mut cr)),
             7 | 8 => ("ps", case_ps(&mut j, &mut r, &mut cr)),
-            _ => ("dlog", case_dlog(&mut j, &mut r, &mut cr)),
+            _ => {
+                let a = case_dlog(&mut j, &mut r, &mut cr);
+                let b = case_curve25519_keys(&mut j, &mut r, &mut cr);
+                ("dlog+curve25519_keys", a ^ b)
+            }
         };
         sh.hit(&format!("cases.{}", tag));
         sh.nontrivial(h ^ vmon_core::fnv(tag.as_bytes()));
